@@ -61,6 +61,13 @@ func genC08(t *rapid.T) CaseC08 {
 	}
 	c.Conds = genCondsFrom(t, 0, 3, cands)
 	c.UsePath = usePath && len(c.Conds) > 0
+	if rapid.IntRange(0, 7).Draw(t, "wrapdeep") == 0 {
+		if usePath {
+			c.Map, c.Steps = wrapDeep(t, c.Map, c.Steps)
+		} else {
+			c.Map, _ = wrapDeep(t, c.Map, nil)
+		}
+	}
 	c.Unrelated = genUnrelated(t)
 	if rapid.IntRange(0, 5).Draw(t, "alias") == 0 {
 		c.Alias = &AliasSpec{Src: rapid.IntRange(0, 30).Draw(t, "asrc"), Dst: rapid.IntRange(0, 30).Draw(t, "adst"), Key: rapid.SampledFrom(shapeKeys).Draw(t, "akey")}
